@@ -71,6 +71,133 @@ def decode(rec):
     return tuple(rec["hist"][0]["input"]), rec["hist"][1:], probs, amps, nsys, rec["nmodes"] - nsys
 
 
+def dist_plans(quick, rng):
+    """(ds, nc, photons, ngates, depth, losses?)"""
+    from .. import distinguish_replay as DR
+    plans = []
+    # uniform overlaps 16/25, 9/25, 1/2 on every occupation with 2 photons (3 in the thorough tier), d = 2
+    occ2 = [(1, 1), (2, 0), (0, 2)]
+    ph = [DR.uniform_photons(o, a, b, 3) for o in occ2 for (a, b) in ((4, 3), (3, 4), (1, 1))]
+    plans.append((2, 3, ph if not quick else rng.sample(ph, 5), 4, 2, True))
+    # general Gram matrices (two internal components): real and complex overlaps, 3 photons
+    vec3 = [[(1, 0), (4, 3), (0, 1)], [(1, 0), (4, 3j), (3, 4)], [(1, 1), (1, 0), (1, -1)]]
+    if quick:     # always a bunched mode preceded by a singly occupied one, and the other way round
+        ph = [DR.gram_photons((1, 2, 0), vec3[0], 2), DR.gram_photons((0, 1, 2), vec3[1], 2), DR.gram_photons((1, 1, 1), vec3[2], 2), DR.gram_photons((2, 1, 0), vec3[rng.randrange(3)], 2)]
+    else:
+        ph = [DR.gram_photons(o, v, 2) for o in ((1, 1, 1), (2, 1, 0), (0, 1, 2), (1, 2, 0), (1, 0, 2)) for v in vec3]
+    plans.append((3, 2, ph, 3, 1 if quick else 2, True))
+    if not quick:
+        occ3 = [(1, 1, 1), (2, 1, 0), (3, 0, 0), (1, 0, 2)]
+        ph = [DR.uniform_photons(o, a, b, 4) for o in occ3 for (a, b) in ((4, 3), (1, 1))]
+        plans.append((3, 4, ph, 4, 2, False))
+    return plans
+
+
+def dist_program(pq, d, ph, gates, losses, steps):
+    ins = [pq.DistinguishableNumberState(ph["occ"], particle_overlap=ph["overlap"]).on_modes(*range(d))]
+    name, lossy = [], False
+    for st in steps:
+        g = gates[st["gate"] - 1] if "gate" in st else losses[st["loss"] - 1]
+        lossy = lossy or "loss" in st
+        ins.append(g["mk"](pq).on_modes(*g["modes"]))
+        name.append(g["name"] + str(g["modes"]))
+    return ins, name, lossy
+
+
+def part_distinguishable(ctx, pq, quick, rng):
+    """PqDistinguish: internal states as extra modes (the definition); PassiveSimulator with DistinguishableNumberState"""
+    from piquasso.api.exceptions import NotImplementedCalculation
+    from piquasso._math.fock import get_fock_space_basis
+    from .. import distinguish_replay as DR
+    counters = ctx.notes.setdefault("distinguishable", {"states": 0, "uniform": 0, "gram": 0, "lossy": 0, "postselected": 0, "not_implemented": 0})
+    for (d, nc, photons, ng, depth, with_loss) in dist_plans(quick, rng):
+        gates = L.passive_catalogue(d, rng=rng, size=ng, with_kerr=False)
+        losses = [L.loss(i, t) for i in range(d) for t in rng.sample(["4/5", "1/sqrt2"], 1)] if with_loss else []
+        recs = DR.explore(ctx, d, nc, gates, photons, depth, losses)
+        ctx.notes.setdefault("explorations", []).append({"spec": "PqDistinguish", "d": d, "internal_components": nc, "gates": [g["name"] + str(g["modes"]) for g in gates],
+                                                         "photon_records": len(photons), "depth": depth, "states_exported": len(recs)})
+        for rec in recs:
+            ph, law = rec["photons"], rec["law"]
+            n = len(ph["ms"])
+            with warnings.catch_warnings():
+                warnings.simplefilter("ignore")
+                ins, name, lossy = dist_program(pq, d, ph, gates, losses, rec["steps"])
+                counters["states"] += 1
+                counters[ph["kind"]] += 1
+                counters["lossy"] += lossy
+                replay = {"occupation": ph["occ"], "overlap": np.asarray(ph["overlap"]).tolist() if ph["kind"] == "gram" else ph["overlap"], "steps": name}
+                ctx.case((ph["occ"], ph["kind"], repr(replay["overlap"]), tuple(name)))
+                tag = f"{ph['kind']}:{'lossy' if lossy else 'lossless'}"
+                # optional post-selection of one mode on an outcome of positive probability
+                variants = [None]
+                cands = sorted({(m, s[m]) for s, p in law.items() if p > 1e-9 for m in range(d)})
+                if cands:
+                    variants.append(rng.choice(cands))
+                for post in variants:
+                    ins2 = list(ins)
+                    if post is None:
+                        exp = dict(law)
+                        rest = list(range(d))
+                    else:
+                        m, k = post
+                        ins2.append(pq.PostSelectPhotons(photon_counts=(k,)).on_modes(m))
+                        rest = [i for i in range(d) if i != m]
+                        exp = {tuple(s[i] for i in rest): p for s, p in law.items() if s[m] == k}
+                        counters["postselected"] += 1
+                    rp = dict(replay, postselect=post)
+                    try:
+                        st_p = pq.PassiveSimulator(d=d, config=pq.Config(cutoff=n + 1)).execute(pq.Program(instructions=ins2)).state
+                    except NotImplementedCalculation:
+                        counters["not_implemented"] += 1
+                        continue
+                    except Exception as e:  # noqa
+                        ctx.report(f"C05:dist:execute-raises:{tag}:{type(e).__name__}", f"PassiveSimulator raised {type(e).__name__}: {str(e)[:100]} for {name} on {ph['occ']}", rp)
+                        continue
+                    basis = [tuple(int(x) for x in b) for b in get_fock_space_basis(d=len(rest), cutoff=n + 1)]
+                    try:
+                        for v in basis:
+                            pc = complex(st_p.get_particle_detection_probability(np.array(v)))
+                            if abs(pc.imag) > 1e-9 or abs(pc.real - exp.get(v, 0.0)) > 1e-9:
+                                ctx.report(f"C05:dist:detection_probability:{tag}", f"partially distinguishable photons ({ph['kind']} overlap): P({v}) = {pc:.9f}, definition gives {exp.get(v, 0.0):.9f} "
+                                           f"after {name} on {ph['occ']}" + (f" post-selected on mode {post[0]} = {post[1]}" if post else ""), rp)
+                                break
+                    except NotImplementedCalculation:
+                        counters["not_implemented"] += 1
+                    except Exception as e:  # noqa
+                        ctx.report(f"C05:dist:detection_probability-raises:{tag}:{type(e).__name__}", f"get_particle_detection_probability raised {type(e).__name__}: {str(e)[:80]} after {name}", rp)
+                    try:
+                        table = {tuple(int(x) for x in k): float(np.real(v)) for k, v in st_p.fock_probabilities_map.items()}
+                        bad = [v for v in basis if abs(table.get(v, 0.0) - exp.get(v, 0.0)) > 1e-9]
+                        if bad:
+                            cplx = "complex-transmission" if np.abs(np.imag(np.asarray(st_p.interferometer))).max() > 1e-12 else "real-transmission"
+                            key = (f"C05:table:lossy:{'post' if post else 'nopost'}:{cplx}" if lossy else f"C05:dist:table:{tag}:{'post' if post else 'nopost'}")
+                            ctx.report(key, f"partially distinguishable photons ({ph['kind']} overlap): fock_probabilities_map[{bad[0]}] = {table.get(bad[0], 0.0):.9f}, definition gives "
+                                       f"{exp.get(bad[0], 0.0):.9f} after {name} on {ph['occ']} (table sums to {sum(table.values()):.6f}, expected {sum(exp.values()):.6f})", rp)
+                        elif abs(float(st_p.norm) - sum(exp.values())) > 1e-9:
+                            ctx.report(f"C05:dist:norm:{tag}", f"norm = {float(st_p.norm):.9f}, definition gives {sum(exp.values()):.9f} after {name} on {ph['occ']}", rp)
+                    except NotImplementedCalculation:
+                        counters["not_implemented"] += 1
+                    except Exception as e:  # noqa
+                        ctx.report(f"C05:dist:table-raises:{tag}:{type(e).__name__}", f"fock_probabilities_map raised {type(e).__name__}: {str(e)[:80]} after {name} on {ph['occ']}", rp)
+                    # marginal of one surviving mode
+                    if len(rest) > 1:
+                        i = rng.randrange(len(rest))
+                        try:
+                            mg = st_p.get_marginal_fock_probabilities(modes=(rest[i],))
+                            mexp = {}
+                            for v, p in exp.items():
+                                mexp[(v[i],)] = mexp.get((v[i],), 0.0) + p
+                            mgot = {tuple(int(x) for x in k): float(np.real(v)) for k, v in mg.items()}
+                            w = max(set(mexp) | set(mgot), key=lambda o: abs(mgot.get(o, 0.0) - mexp.get(o, 0.0)))
+                            if abs(mgot.get(w, 0.0) - mexp.get(w, 0.0)) > 1e-9:
+                                ctx.report(f"C05:dist:marginal:{tag}", f"partially distinguishable photons: marginal P_{rest[i]}({w}) = {mgot.get(w, 0.0):.9f}, definition {mexp.get(w, 0.0):.9f} after {name} on {ph['occ']}", rp)
+                        except NotImplementedCalculation:
+                            counters["not_implemented"] += 1
+                        except Exception as e:  # noqa
+                            ctx.report(f"C05:dist:marginal-raises:{tag}:{type(e).__name__}", f"get_marginal_fock_probabilities raised {type(e).__name__}: {str(e)[:80]} after {name}", rp)
+                ctx.validated()
+
+
 def run(ctx):
     import piquasso as pq
     from piquasso.api.exceptions import NotImplementedCalculation
@@ -213,5 +340,8 @@ def run(ctx):
             inp, steps, probs, amps, nsys, nanc = decode(recs[-1])
             ctx.sample({"input": inp, "steps": steps, "system_probabilities": {str(k): round(v, 9) for k, v in list(probs.items())[:5]}})
     ctx.notes["counters"] = counters
-    ctx.assumptions += ["partial distinguishability (Gram-matrix overlaps) is not modelled by PqOptics yet: only indistinguishable bosons with loss and post-selection",
+    ctx.tick("dilation")
+    part_distinguishable(ctx, pq, quick, rng)
+    ctx.tick("distinguishable")
+    ctx.assumptions += ["internal states of partially distinguishable photons on the lattice: uniform overlaps 16/25, 9/25, 1/2 and Gram matrices of Gaussian-integer vectors in two components",
                         "lattice transmissivities 3/5, 4/5, 1/sqrt2"]
